@@ -23,7 +23,8 @@ class Prop:
             "must run exactly at k*period (also when a tick itself takes virtual time, less than a period) with the state returned by tick k-1, no tick may start after dispose() returned, none after a tick "
             "raised, interval/timer emit 0,1,2,... at those ticks. TH: the same on EventLoopScheduler, NewThreadScheduler and "
             "TimeoutScheduler with a controlled disposing thread, 0-3 forced pre-emptions, spurious wake-ups and clock drift: ticks never "
-            "early (tick k not before k*period after scheduling), state threaded, ticks serial, none after a raise, and after dispose() "
+            "early (tick k not before k*period after scheduling) and not missing (all but the last elapsed period have ticked when dispose() is called, "
+            "also on a scheduler whose worker thread is already alive and idle), state threaded, ticks serial, none after a raise, and after dispose() "
             "returned at most the one tick the worker had already committed to (none if the worker was blocked or the dispose came from "
             "inside a tick). Distinct = (scheduler, period, dispose/raise plan, context-switch sequence); non-trivial = at least two ticks ran.")
     assumptions = ["commit-window rule for cross-thread dispose (DESIGN.md section 9)", "an action that raises escapes VirtualTimeScheduler.start(); the harness calls stop() and resumes"]
@@ -39,7 +40,8 @@ class Prop:
                     "work": rng.choice([0, 0, 0, 0.5, 2.5, 3])}  # virtual time a tick itself takes (less than the period, else 0)
         return {"mode": "th", "on": rng.choice(["eventloop", "newthread", "timeout"]), "period_ms": rng.choice([1, 2, 5, 10]),
                 "dispose_after_ms": rng.choice([0, 1, 3, 7, 12, 25]), "raise_at": rng.choice([None, None, None, 1, 2]),
-                "dispose_in_tick": rng.choice([None, None, None, 1, 2]), "sched": th.gen_sched(rng, spurious_p=0.3, drift_p=0.3)}
+                "dispose_in_tick": rng.choice([None, None, None, 1, 2]), "sched": th.gen_sched(rng, spurious_p=0.3, drift_p=0.3, sweep_p=0.02),
+                "warm": rng.random() < 0.4}  # the scheduler has already run something: its worker thread (if it keeps one) is alive and idle
 
     def execute(self, sc):
         return self.exec_vt(sc) if sc["mode"] == "vt" else self.exec_th(sc)
@@ -154,6 +156,8 @@ class Prop:
 
     # ------------------------------------------------------------------ TH
     def exec_th(self, sc):
+        if sc["sched"].get("sweep") and "cps" not in sc:
+            return th.sweep(self.exec_th, sc)
         out = Outcome()
         holder = {}
 
@@ -170,6 +174,8 @@ class Prop:
                 def dispose(from_tick):
                     d = box.get("d")
                     if d is not None and "disp_ret" not in st:
+                        st["disp_inv_t"] = sim.now
+                        st["ticks_at_dispose"] = len(st["ticks"])
                         d.dispose()
                         st["disp_ret"] = sim.tick()
                         workers = [t for t in sim.threads if t.kind == "lib" and t.state != "done"]
@@ -189,6 +195,9 @@ class Prop:
                         raise Boom()
                     return (state or 0) + 1
 
+                if sc.get("warm"):
+                    s.schedule(lambda sch, st_=None: None)
+                    sim.sleep(0.002)
                 sim.mark()
                 st["t0"] = sim.now
                 box["d"] = s.schedule_periodic(period, action, 0)
@@ -231,6 +240,15 @@ class Prop:
                 bad("wrong-thread", "tick %d ran on a caller thread" % k)
         if sc["raise_at"] is not None and len(ticks) > sc["raise_at"] + 1:
             bad("tick-after-raise", "%d ticks ran although tick %d raised" % (len(ticks), sc["raise_at"]))
+        if "disp_inv_t" in st and not sim.faults["clock_drift"] and sc["raise_at"] is None and sc["dispose_in_tick"] is None:
+            # progress: by the time the disposing thread calls dispose(), all but the last of the periods that have elapsed have ticked
+            # (the clock only moves with the run: 1 us per step, jumps to the next timer when every thread waits)
+            # each tick costs simulated time of its own (1 us per executed line) that the scheduler does not compensate for: 300 us of
+            # slack per period, far above what a tick takes and far below a period that went missing
+            due = (st["disp_inv_t"] - st["t0"]) // (period_us + 300)
+            if st["ticks_at_dispose"] < due - 1:
+                bad("ticks-missing", "%d periods of %d us (+300 us slack each) had elapsed when dispose() was called, only %d tick(s) had started" % (due, period_us, st["ticks_at_dispose"]))
+            out.probes["progress_checked"] += 1
         if "disp_ret" in st:
             late = [x for x in ticks if x[0] > st["disp_ret"]]
             allowed = 0 if st.get("strict") else 1
